@@ -464,7 +464,8 @@ _sched("C02", "Theorems over every accepted trace: the non-deferred entries of o
               "the started entries are exactly the non-deferred entries of the command list below the loop position, all of them once the body ran to "
               "its end (C02_no_entry_skipped, C02_body_complete); every command of a callee saw the value its reference passed (literal, a variable of "
               "the referrer, the referrer's own value; Sched.Pass, valMon beside the acceptor's own step: verdict C02v, C02_callee_sees_passed). "
-              "Loop order (list, row-major matrix) and call variables: Props.C02Vars over the Vars model, tied by domain `vars`.")
+              "Loop order (list, row-major matrix), loops over MAP variables (order unspecified, every KEY paired with its own ITEM: C02_map_loop_pairs, "
+              "stream vars.loopmap) and call variables: Props.C02Vars over the Vars model, tied by domain `vars`.")
 PROPS["C02"]["domains"] = [{"name": "sched"}, {"name": "vars", "env": {"VERIF_VARS_ENVDEP": "0", "VERIF_VARS_POSTMON": "0"}}, {"name": "callvals"}]
 PROPS["C02"]["lean"] = "Props.C02All"
 PROPS["C02"]["prop_modules"] = ["Props.C02", "Props.C02Vars"]
